@@ -30,6 +30,7 @@ import (
 	"sort"
 	"strings"
 	"sync"
+	"sync/atomic"
 	"testing"
 	"time"
 
@@ -336,6 +337,7 @@ type aEnv struct {
 	mu    sync.Mutex
 	async []chan aRes
 	start time.Time
+	closing atomic.Bool // a "close" step was started (it may still be running, or hang)
 	dir  string
 	conf aConf
 	s    *Server
@@ -529,6 +531,12 @@ func (e *aEnv) doHTTP(st aStep, idx int) (res aRes) {
 				res.Err = stk
 			}
 		}()
+		if st.TimeoutMS < 0 {
+			// the client went away before the request was served
+			ctx, cancel := context.WithCancel(context.Background())
+			cancel()
+			req = req.WithContext(ctx)
+		}
 		if st.TimeoutMS > 0 {
 			ctx, cancel := context.WithTimeout(context.Background(), time.Duration(st.TimeoutMS)*time.Millisecond)
 			defer cancel()
@@ -742,6 +750,7 @@ func (e *aEnv) step(st aStep, idx int) (res aRes) {
 			e.conf = *st.Conf
 		}
 		e.s = New(e.mkConf())
+		e.closing.Store(false)
 	case "gc":
 		err := e.withRepo(st.Repo, func(r store.Repo) error { return store.VerifGC(r) })
 		if err != nil {
@@ -765,7 +774,9 @@ func (e *aEnv) step(st aStep, idx int) (res aRes) {
 			e.conf = *st.Conf
 		}
 		e.s = New(e.mkConf())
+		e.closing.Store(false)
 	case "close":
+		e.closing.Store(true)
 		if err := e.s.Close(); err != nil {
 			res.Err = err.Error()
 		}
@@ -991,7 +1002,7 @@ func runCase(c aCase, work string) (out aOut) {
 	}
 	e.s = New(e.mkConf())
 	defer func() {
-		if e.s != nil && e.s.store != nil {
+		if e.s != nil && e.s.store != nil && !e.closing.Load() {
 			done := make(chan struct{})
 			go func() { _ = e.s.Close(); close(done) }()
 			select {
